@@ -39,7 +39,7 @@ def units_reading(files):
 def main():
     if not os.path.isdir(D):
         subprocess.run(["rsync", "-a", "--exclude", "target", "/repo/", D + "/"], check=True)
-    for patch in sys.argv[1:]:
+    for patch in [os.path.abspath(a) for a in sys.argv[1:]]:
         subprocess.run(["rsync", "-a", "--delete", "--exclude", "target", "/repo/", D + "/"], check=True, stdout=subprocess.DEVNULL)
         files = [l[6:].strip() for l in open(patch) if l.startswith("+++ b/")]
         r = subprocess.run(["git", "apply", patch], cwd=D, capture_output=True, text=True)
